@@ -28,6 +28,7 @@ func vyield()                       { verifYield() }
 func vparam(name string, def int) int { return verifParam(name, def) }
 func vlocksheld() int               { return 0 }
 func vsymbolic() bool               { return false }
+func vmaporder(n int)               {}
 func vobserve(label string, v uint64) { verifObserve(label, v) }
 `
 
